@@ -14,7 +14,7 @@ Definition hy : val := VStr "hy".
 Definition user_kw (m vg vl vm vmac : val) : list (string * val) :=
   [("model", m); ("globals", vg); ("locals", vl); ("module", vm); ("macros", vmac)].
 Definition call_user (Orc : oracle) (fuel : nat) (m vg vl vm vmac : val) (s : st) : eres :=
-  call_fun user_prog Orc fuel "hy_eval_user" hy_eval_user_def [] (user_kw m vg vl vm vmac) s.
+  call_fun user_prog Orc fuel None "hy_eval_user" hy_eval_user_def [] (user_kw m vg vl vm vmac) s.
 
 (* enough for any single call of the generated body (no loops, calls only to opaque callees) *)
 Definition user_fuel : nat := 60.
